@@ -145,10 +145,14 @@ func shortName(c *Contract) string {
 	if c.Pkg == modulePath {
 		p = "templ"
 	}
-	if c.Recv != "" {
-		return p + "." + c.Recv + "." + c.Name
+	v := ""
+	if c.Variant != "" {
+		v = "/" + c.Variant
 	}
-	return p + "." + c.Name
+	if c.Recv != "" {
+		return p + "." + c.Recv + "." + c.Name + v
+	}
+	return p + "." + c.Name + v
 }
 
 func (e *Engine) posStr(p token.Pos) string {
